@@ -73,12 +73,23 @@ pub fn parse_fits(s: &str) -> Option<Vec<(bool, u32)>> {
         .collect()
 }
 
+thread_local! { static TWIN: std::cell::Cell<bool> = const { std::cell::Cell::new(false) }; }
+
+/// `pixt …` : `pix` on a HAND-ASSEMBLED copy of the symbol (`QRCode::default` + `qr[y][x] = dark.into()`)
+pub fn pixt_line(input: &[u8], o: Opts, ops: &[Op], fw: Option<u32>, fh: Option<u32>) -> String {
+    TWIN.with(|t| t.set(true));
+    let l = pix_line(input, o, ops, fw, fh).replacen("pix ", "pixt ", 1);
+    TWIN.with(|t| t.set(false));
+    l
+}
+
 fn pix_core(head: String, input: &[u8], o: Opts, ops: &[Op], fits: Vec<(bool, u32)>) -> String {
     let r = build(input, o);
     let q = match &r {
         Outcome::Ok(q) => q.clone(),
         _ => return format!("{}nobuild {}", head, outcome_short(&r)),
     };
+    let q = if TWIN.with(|t| t.get()) { Box::new(crate::gen::hand_copy(&q)) } else { q };
     let mut margin = 4usize;
     let mut bg = [255u8, 255, 255, 255];
     let mut fg = [0u8, 0, 0, 255];
@@ -330,6 +341,10 @@ pub fn gen(out: &mut crate::gen::Out, rng: &mut Rng, thorough: bool) {
                         Op::ModuleColor(ColorArg::Rgba(fg)),
                         Op::BackgroundColor(ColorArg::Rgba(bg)),
                     ];
+                    if (fw, fh) == (Some(cells * 4), None) && margin % 2 == 0 {
+                        let (i2, ops2) = (inp.clone(), ops.clone());
+                        out.job(move || pixt_line(&i2, o, &ops2, fw, fh));
+                    }
                     out.job(move || pix_line(&inp, o, &ops, fw, fh));
                 }
             }
